@@ -35,6 +35,7 @@ type Obs struct {
 	NAccts   uint64
 	Commits  int  // database commits made by this delivery
 	NoTrace  bool // commits == 0 implies the database is byte-identical to before (checked key by key)
+	Skip     bool // member of a batch other than the last one worked off: the node was not observed after this block
 }
 
 type AcctRow struct {
@@ -237,6 +238,65 @@ func (w *World) genHistory(p HistParams) *History {
 		}
 		return op
 	}
+	// deliverBatch hands several blocks to the node at once: each is prevalidated and queued for the validator's
+	// post-processor, which then works the queue off (lowest height first). The operations are recorded in the order
+	// the post-processor takes them - selectAndPostprocess: first entry of minimal height, the last entry moves into its
+	// place - and only the last one carries an observation of the node.
+	deliverBatch := func(ns []*TNode) {
+		raws := make([][]byte, len(ns))
+		for i, n := range ns {
+			raws[i] = n.Raw
+		}
+		w.bc.DB = h.NUT
+		pre := h.NUT.Commits
+		now := util.Time()
+		crashed := false
+		var stages []int
+		func() {
+			defer func() {
+				if recover() != nil {
+					crashed = true
+				}
+			}()
+			stages = w.bc.VerifDeliverBatch(raws)
+		}()
+		var q []*TNode
+		for i, n := range ns {
+			if i < len(stages) && stages[i] == 2 {
+				q = append(q, n)
+			} else {
+				h.Stats["batch-member-not-queued"]++
+			}
+		}
+		var order []*TNode
+		for len(q) > 0 {
+			mi := 0
+			for i := 1; i < len(q); i++ {
+				if q[i].Block.Height < q[mi].Block.Height {
+					mi = i
+				}
+			}
+			order = append(order, q[mi])
+			q[mi] = q[len(q)-1]
+			q = q[:len(q)-1]
+		}
+		final := w.observe(h.NUT, false, crashed)
+		for i, n := range order {
+			acc := false
+			w.view(h.NUT, func(v *View) { acc = v.Block(n.Hash) != nil })
+			op := &Op{Node: n, Now: now, Obs: final}
+			op.Obs.Accepted, op.Obs.Skip = acc, i < len(order)-1
+			op.Obs.Commits, op.Obs.NoTrace = 0, true // the commits of a batch are not attributed to its members
+			if i == len(order)-1 {
+				op.Commits = h.NUT.Commits - pre
+				op.Dump = w.dump(h.NUT)
+			}
+			h.Ops = append(h.Ops, op)
+		}
+		h.Stats["batch"]++
+		h.Stats[fmt.Sprintf("batch-size-%d", len(ns))]++
+	}
+	_ = deliverBatch
 	burst := 0           // remaining blocks of a competing branch being built
 	var burstTip *TNode
 	for step := 0; step < p.Steps; step++ {
@@ -394,6 +454,8 @@ func (w *World) genHistory(p HistParams) *History {
 	case "badtxsweep":
 		w.scenarioBadTxSweep(h, deliver)
 		w.scenarioUnlockEdge(h, deliver)
+	case "batches":
+		w.scenarioBatches(h, deliver, deliverBatch)
 	}
 	if len(h.Ops) > 0 && h.Ops[len(h.Ops)-1].Dump == nil {
 		h.Ops[len(h.Ops)-1].Dump = w.dump(h.NUT)
@@ -917,6 +979,69 @@ func (w *World) scenarioUnlockEdge(h *History, deliver func(*TNode) *Op) {
 		}
 	}
 	h.Stats["scenario-unlockedge"]++
+}
+
+// scenarioBatches: chains and forks handed to the node in batches - out of order, with duplicates, children before
+// parents, a parent missing from the batch and supplied by a later one. Every block that was handed over at least once
+// after its parent must end up stored and the tip must be the heaviest.
+func (w *World) scenarioBatches(h *History, deliver func(*TNode) *Op, deliverBatch func([]*TNode)) {
+	rng := w.rng
+	grow := func(from *TNode, n int, wi int) []*TNode {
+		var out []*TNode
+		cur := from
+		for i := 0; i < n; i++ {
+			txs, meta, _ := w.genTxs(cur, 2, 0)
+			nb := w.build(cur, BlockSpec{TsDelta: 12000 + rng.UpTo(6000), Recipient: w.wallets[(wi+i)%len(w.wallets)].Addr, Txs: txs, TxMeta: meta, Sign: 1})
+			w.admit(nb)
+			if !nb.Valid {
+				break
+			}
+			out = append(out, nb)
+			cur = nb
+		}
+		return out
+	}
+	for round := 0; round < 6; round++ {
+		base := w.nodeOfTop(h.NUT)
+		if base == nil || base.Snap == nil {
+			return
+		}
+		c := grow(base, 3+rng.Intn(2), round)
+		if len(c) < 3 {
+			return
+		}
+		var batch []*TNode
+		switch round {
+		case 0: // the last block first, then the chain in order, the last block again
+			batch = append([]*TNode{c[len(c)-1]}, c...)
+		case 1: // twice the last block first
+			batch = append([]*TNode{c[len(c)-1], c[len(c)-1]}, c...)
+		case 2: // every block twice, the last one first
+			batch = []*TNode{c[len(c)-1]}
+			for _, x := range c[:len(c)-1] {
+				batch = append(batch, x, x)
+			}
+			batch = append(batch, c[len(c)-1])
+		case 3: // reversed
+			for i := len(c) - 1; i >= 0; i-- {
+				batch = append(batch, c[i])
+			}
+		case 4: // the first block is missing from the batch (all orphans), a second batch supplies everything
+			deliverBatch(c[1:])
+			batch = append([]*TNode{}, c...)
+			rng2 := rng.Intn(len(batch))
+			batch[0], batch[rng2] = batch[rng2], batch[0]
+		default: // a random permutation with duplicates of the chain and of a competing branch from the same parent
+			f := grow(base, len(c), round+2)
+			batch = append(append(append([]*TNode{}, c...), f...), c[rng.Intn(len(c))])
+			for i := len(batch) - 1; i > 0; i-- {
+				j := rng.Intn(i + 1)
+				batch[i], batch[j] = batch[j], batch[i]
+			}
+		}
+		deliverBatch(batch)
+	}
+	h.Stats["scenario-batches"]++
 }
 
 // scenarioCorruptSweep: every single-rule corruption of an otherwise valid block, once each, on a live chain state
